@@ -60,8 +60,20 @@ func (d Matches) Less(i, j int) bool {
 	if di.StartTokenIndex != dj.StartTokenIndex {
 		return di.StartTokenIndex < dj.StartTokenIndex
 	}
-	// Should never get here, but tiebreak based on the larger license.
-	return di.EndTokenIndex > dj.EndTokenIndex
+	// Tiebreak based on the larger license.
+	if di.EndTokenIndex != dj.EndTokenIndex {
+		return di.EndTokenIndex > dj.EndTokenIndex
+	}
+	// Different corpus documents can match the same span with the same
+	// confidence (e.g. two names for one text). Order those by their identity
+	// so that the result does not depend on map iteration order.
+	if di.Name != dj.Name {
+		return di.Name < dj.Name
+	}
+	if di.MatchType != dj.MatchType {
+		return di.MatchType < dj.MatchType
+	}
+	return di.Variant < dj.Variant
 }
 
 // Match reports instances of the supplied content in the corpus.
